@@ -145,7 +145,7 @@ pub fn render(case: &Case) -> Rendered {
     let mut multi_unit = false;
     let mut array_target = false;
     let mut overlap = false;
-    let mut note = |table: &BTreeMap<(u8, u32), Vec<u16>>, len: u8, a: u32, b: u32, overlap: &mut bool| {
+    let note = |table: &BTreeMap<(u8, u32), Vec<u16>>, len: u8, a: u32, b: u32, overlap: &mut bool| {
         // overlap with, or adjacency to, an existing definition of the same length
         let lo = a.saturating_sub(1);
         let hi = b.saturating_add(1);
